@@ -1,4 +1,4 @@
-"""Scheduler-aware locks.
+"""Scheduler-aware locks, events and conditions.
 
 Under the baton only one thread runs; if it blocks on a real lock held by a
 parked thread the whole run deadlocks.  Code that is made thread-safe with a
@@ -103,7 +103,85 @@ class SimRLock(_SimLockBase):
         return self._real._release_save()
 
     def _acquire_restore(self, state):
-        return self._real._acquire_restore(state)
+        if ACTIVE is None or _sim_thread_index() is None:
+            return self._real._acquire_restore(state)
+        # under the baton: re-acquire through the yielding acquire, once per level
+        count = state[0] if isinstance(state, tuple) else 1
+        for _ in range(max(1, int(count))):
+            self.acquire()
+
+
+_real_event = threading.Event
+_real_condition = threading.Condition
+
+
+def _sim_wait(pred, timeout):
+    """Wait, under the baton, until pred() holds: hand the baton on while it does
+    not.  Returns True/False like the primitives' wait(); raises SimDeadlock when
+    nobody is left who could make it true (and no timeout was given)."""
+    baton = ACTIVE
+    me = _sim_thread_index()
+    spins = 0
+    while not pred():
+        STATS["blocked_acquires"] += 1
+        spins += 1
+        if spins > 100000 or not baton.lock_blocked(me):
+            baton.lock_acquired(me)
+            if timeout is not None and timeout >= 0:
+                return False          # the timeout expires (in virtual time)
+            STATS["deadlocks"] += 1
+            raise SimDeadlock()
+    if spins:
+        baton.lock_acquired(me)
+    return True
+
+
+def _in_sim():
+    baton = ACTIVE
+    if baton is None:
+        return False
+    me = _sim_thread_index()
+    return me is not None and baton.current == me
+
+
+class SimEvent(_real_event):
+    """threading.Event whose wait() yields the baton instead of blocking the one
+    thread that is allowed to run."""
+
+    def wait(self, timeout=None):
+        if not _in_sim():
+            return super().wait(timeout)
+        return _sim_wait(self.is_set, timeout)
+
+
+class SimCondition(_real_condition):
+    """threading.Condition (also under Semaphore, Barrier, queue.Queue): wait()
+    releases the lock, yields the baton until a notify happened, re-acquires.
+    Every notify wakes every simulated waiter (spurious wake-ups are allowed)."""
+
+    def __init__(self, lock=None):
+        super().__init__(lock if lock is not None else SimRLock())
+        self._sim_gen = 0
+
+    def wait(self, timeout=None):
+        if not _in_sim():
+            return super().wait(timeout)
+        if not self._is_owned():
+            raise RuntimeError("cannot wait on un-acquired lock")
+        gen = self._sim_gen
+        saved = self._release_save()
+        try:
+            return _sim_wait(lambda: self._sim_gen != gen, timeout)
+        finally:
+            self._acquire_restore(saved)
+
+    def notify(self, n=1):
+        self._sim_gen += 1
+        return super().notify(n)
+
+    def notify_all(self):
+        self._sim_gen += 1
+        return super().notify_all()
 
 
 _installed = False
@@ -117,3 +195,5 @@ def install():
     _installed = True
     threading.Lock = SimLock
     threading.RLock = SimRLock
+    threading.Event = SimEvent
+    threading.Condition = SimCondition
